@@ -32,6 +32,20 @@ def tv(ck, runs, first=0, tag="gen"):
     ck.validate_runs("ec/Trace_Generation", "ec/Trace_Generation.cfg", path, sig, what,
                      regen=lambda ev: {"seed": ck.seed, "run": ev.get("run")}, timeout=3000)
     evs = vlib.read_ndjson(path)
+    # live randomness ACROSS runs too: every run of the driver steps inside a pool of its own; a word
+    # drawn by a child of one run must not come back for a child of another (the trace specification
+    # checks this inside each run)
+    seen = {}
+    for ev in evs:
+        if ev.get("ev") == "end" and ev.get("ok") and "word" in ev:
+            w = str(ev["word"])
+            if w in seen and seen[w] != ev.get("run"):
+                ck.violation("trace:generation:replayed-randomness",
+                             f"a child of run {ev.get('run')} drew the same 64-bit word as a child of run {seen[w]} (stepping in another "
+                             f"rayon pool of the same process): children are correlated copies of one draw: {json.dumps(ev)[:300]}",
+                             {"kind": "trace", "regen": {"seed": ck.seed, "run": seen[w], "until": ev.get("run")}})
+                break
+            seen.setdefault(w, ev.get("run"))
     return evs
 
 
@@ -89,4 +103,4 @@ def replay(ck, obj):
     if r.get("evolution"):
         evocheck.tv(ck, 1, first=r["run"], tag="one")
         return
-    tv(ck, 1, first=r["run"], tag="one")
+    tv(ck, 1 + max(0, r.get("until", r["run"]) - r["run"]), first=r["run"], tag="one")
